@@ -282,6 +282,34 @@ def run(ctx):
                             ctx.ob("C07.V2.comparator-is-total", "%s%s|%s" % (tag, f.path, c.name.split("::")[-1]), not badc,
                                    "comparator passed to %s uses %s: not a total order (NaN) / may panic" % (c.name.split("::")[-1], badc),
                                    f.where(c.bb))
+        # ---- V4: descending order comes from the comparator, never from reversing a sorted sequence.  A stable sort
+        # followed by `reverse()` also reverses the run of items that compare equal, so `sort(reverse=true)` would no
+        # longer be a stable descending sort (and would disagree with the attribute form on ties).
+        n4 = 0
+        for f in prog.fns.values():
+            if not (f.loc.f.endswith("filters.rs") or f.loc.f.endswith("filters/mod.rs")):
+                continue
+            sorts = [c for c in f.calls() if any(c.name.endswith(x) for x in SORTERS) and ("sort" in c.name.split("::")[-1])]
+            if not sorts:
+                continue
+            n4 += 1
+
+            def vec_roots(op):
+                return {o.key() for o in flow.origins(f, op, through_calls=lambda k: 0 if k.name.endswith(
+                    ("::deref_mut", "::deref", "::as_mut_slice", "::as_mut", "::as_slice", "::iter", "::iter_mut", "::into_iter")) else None)}
+            sorted_roots = set()
+            for c in sorts:
+                sorted_roots |= vec_roots(c.args[0])
+            for c in f.calls():
+                last = c.name.split("::")[-1]
+                if last in ("reverse", "rev") and c.args and (vec_roots(c.args[0]) & sorted_roots) and any(
+                        cfg.can_reach(f, s_.bb, c.bb) for s_ in sorts):
+                    ctx.ob("C07.V4.order-direction-comes-from-the-comparator", "%s%s|%s" % (tag, f.path, last), False,
+                           "%s sorts a vector with a stable sort and then calls %s on it: items that compare equal end "
+                           "up in reversed input order, so the descending sort is not stable" % (f.path.split("::")[-1], c.name),
+                           f.where(c.bb))
+        if prog.has_fn("minijinja::filters::builtins::sort"):
+            ctx.floor("C07.V4 filters that sort" + tag, n4, 2)
         if prog.has_fn("minijinja::filters::builtins::sort"):
             ctx.floor("C07.V2 comparator closures" + tag, n2, 3)
         else:
